@@ -482,4 +482,204 @@ Proof.
   - unfold decl1, dembed. cbn [map strip snd]. rewrite (strip_strs P). rewrite HIs. reflexivity.
 Qed.
 
+(* ---- several declarators: `T x1 [= e1] , x2 [= e2] , ... ;` ---- *)
+(* one init-declarator followed by `,` or `;` *)
+Lemma idecl_run : forall ki Xi, InitOK ki Xi ->
+  forall (s: pstate) x le (stop: tok) l, tk x = K_ID -> Spell le ki -> (tk stop = K_SEMI \/ tk stop = K_COMMA) -> Up s (x :: le ++ stop :: l) ->
+  exists f0 c I s', (forall f, f0 <= f -> p_init_declarator P f false s = Ok (mkDI P (Some (td_of (tv x) c)) I VNone, s')) /\
+    Up s' (stop :: l) /\ strip I = Xi /\ Ran P s s' (S (length le)).
+Proof.
+  intros ki Xi HI s x le stop l Hk HS Hstop HU.
+  assert (Hst: kind_eqb (tk stop) K_LBRACKET = false /\ kind_eqb (tk stop) K_LPAREN = false /\ kind_eqb (tk stop) K_EQUALS = false /\ astop (tk stop) = true).
+  { destruct Hstop as [E|E]; rewrite E; repeat split; reflexivity. }
+  destruct Hst as (Hs1 & Hs2 & Hs3 & Hs4).
+  destruct HI as [[-> ->]|[kvs [-> [HA Hfo]]]].
+  - apply (RoundTrip.Spell_nil_inv P) in HS. subst le. cbn [app] in HU.
+    destruct (declarator_id s x stop l HU Hk Hs1 Hs2) as [c [s1 [H1 [HU1 [Hi1 [Ht1 Hsc1]]]]]].
+    destruct (accept_miss P s1 stop l K_EQUALS HU1 Hs3) as [s2 [H2 [HU2 HS2]]].
+    exists 8, c, VNone, s2. split; [|split; [exact HU2|split; [reflexivity|cost_tac]]].
+    intros f Hf. destruct f as [|f]; [lia|]. rewrite idecl_eq. unfold bind at 1. rewrite H1 by lia.
+    unfold bind at 1. rewrite H2. reflexivity.
+  - destruct (RoundTrip.Spell_cons_inv P _ _ _ _ HS) as [eqt [le' [-> [Hke [_ HS']]]]]. cbn [app] in HU.
+    assert (Hn1: kind_eqb (tk eqt) K_LBRACKET = false) by (rewrite Hke; reflexivity).
+    assert (Hn2: kind_eqb (tk eqt) K_LPAREN = false) by (rewrite Hke; reflexivity).
+    destruct (declarator_id s x eqt _ HU Hk Hn1 Hn2) as [c [s1 [H1 [HU1 [Hi1 [Ht1 Hsc1]]]]]].
+    assert (Hee: kind_eqb (tk eqt) K_EQUALS = true) by (rewrite Hke; reflexivity).
+    destruct (accept_hit P s1 eqt _ K_EQUALS HU1 Hee) as [s2 [H2 [HU2 HA2]]].
+    destruct Hfo as [k0 [v0 [rest0 [Ek0 [_ [Hnb _]]]]]].
+    pose proof HS' as HS0. rewrite Ek0 in HS'. destruct (RoundTrip.Spell_cons_inv P _ _ _ _ HS') as [t0 [tl0 [El0 [Hk0 [_ _]]]]].
+    assert (Hnb': kind_eqb (tk t0) K_LBRACE = false) by (rewrite Hk0; exact Hnb).
+    rewrite El0 in HU2. cbn [app] in HU2.
+    destruct (accept_miss P s2 t0 _ K_LBRACE HU2 Hnb') as [s3 [H3 [HU3 HS3]]].
+    change (t0 :: tl0 ++ stop :: l) with ((t0 :: tl0) ++ stop :: l) in HU3. rewrite <- El0 in HU3.
+    destruct (HA s3 le' stop l HS0 HU3 Hs4) as [fa [I [s4 [H4 [HU4 [HI HR4]]]]]].
+    exists (fa + 9), c, I, s4. split; [|split; [exact HU4|split; [exact HI|cost_tac]]].
+    intros f Hf. destruct f as [|f]; [lia|]. rewrite idecl_eq. unfold bind at 1. rewrite H1 by lia.
+    unfold bind at 1. rewrite H2. unfold bind at 1. destruct f as [|f]; [lia|]. rewrite initializer_eq. unfold bind at 1. rewrite H3.
+    rewrite (H4 f) by lia. reflexivity.
+Qed.
+
+(* the declarators of the list: name, tokens of the initializer part, initializer tree *)
+Definition dl_toks (ds: list (str * list (kind * str) * value unit)) : list (kind * str) :=
+  (fix go (l: list (str * list (kind * str) * value unit)) : list (kind * str) :=
+     match l with
+     | [] => []
+     | [(x, ki, _)] => (K_ID, x) :: ki
+     | (x, ki, _) :: r => (K_ID, x) :: ki ++ (K_COMMA, s2l ",") :: go r
+     end) ds.
+Definition DIs (infos: list (dinfo P)) (ds: list (str * list (kind * str) * value unit)) : Prop :=
+  Forall2 (fun di d => exists c I, di = mkDI P (Some (td_of (fst (fst d)) c)) I VNone /\ strip I = snd d) infos ds.
+
+Lemma idm_run : forall ds, Forall (fun d => InitOK (snd (fst d)) (snd d)) ds ->
+  forall (s: pstate) le (semi: tok) l,
+  Spell le (concat (map (fun d => (K_COMMA, s2l ",") :: (K_ID, fst (fst d)) :: snd (fst d)) ds)) -> tk semi = K_SEMI -> Up s (le ++ semi :: l) ->
+  exists f0 infos s', (forall f, f0 <= f -> p_init_declarators_more P f false s = Ok (infos, s')) /\ Up s' (semi :: l) /\ DIs infos ds /\ Ran P s s' (length le).
+Proof.
+  induction ds as [|[[x ki] Xi] ds IH]; intros HF s le semi l HS Hsemi HU.
+  - apply (RoundTrip.Spell_nil_inv P) in HS. subst le. cbn [app] in HU.
+    assert (Hnc: kind_eqb (tk semi) K_COMMA = false) by (rewrite Hsemi; reflexivity).
+    destruct (accept_miss P s semi l K_COMMA HU Hnc) as [s1 [H1 [HU1 HS1]]].
+    exists 1, [], s1. split; [|split; [exact HU1|split; [constructor|cost_tac]]].
+    intros f Hf. destruct f as [|f]; [lia|]. rewrite idm_eq. unfold bind at 1. rewrite H1. reflexivity.
+  - inversion HF as [|a b Hd HF']; subst a b. cbn [fst snd] in Hd. cbn [map concat fst snd] in HS.
+    destruct (RoundTrip.Spell_cons_inv P _ _ _ _ HS) as [cm [l1 [-> [Hkc [_ HS1]]]]].
+    destruct (RoundTrip.Spell_cons_inv P _ _ _ _ HS1) as [xt [l2 [-> [Hkx [Hvx HS2]]]]].
+    destruct (RoundTrip.Spell_app_inv P _ _ _ HS2) as [lki [lr [-> [HSki HSr]]]].
+    cbn [app] in HU. rewrite <- app_assoc in HU.
+    assert (Hcc: kind_eqb (tk cm) K_COMMA = true) by (rewrite Hkc; reflexivity).
+    destruct (accept_hit P s cm _ K_COMMA HU Hcc) as [s1 [H1 [HU1 HA1]]].
+    (* what follows this declarator: the next `,` or the `;` *)
+    assert (Hnext: exists n l', lr ++ semi :: l = n :: l' /\ (tk n = K_SEMI \/ tk n = K_COMMA)).
+    { destruct ds as [|[[x2 ki2] X2] ds'].
+      - apply (RoundTrip.Spell_nil_inv P) in HSr. subst lr. exists semi, l. split; [reflexivity|left; exact Hsemi].
+      - cbn [map concat fst snd] in HSr. destruct (RoundTrip.Spell_cons_inv P _ _ _ _ HSr) as [n [l2' [-> [Hkn _]]]]. exists n, (l2' ++ semi :: l). split; [reflexivity|right; exact Hkn]. }
+    destruct Hnext as [n [l' [En Hn]]]. rewrite En in HU1.
+    destruct (idecl_run ki Xi Hd s1 xt lki n l' Hkx HSki Hn HU1) as [f1 [c [I [s2 [H2 [HU2 [HI2 HR2]]]]]]]. rewrite <- En in HU2.
+    destruct (IH HF' s2 lr semi l HSr Hsemi HU2) as [f2 [infos [s3 [H3 [HU3 [HD3 HR3]]]]]].
+    exists (S (Nat.max f1 f2)), (mkDI P (Some (td_of (tv xt) c)) I VNone :: infos), s3.
+    split; [|split; [exact HU3|split; [|cost_tac]]].
+    + intros f Hf. destruct f as [|f]; [lia|]. rewrite idm_eq. unfold bind at 1. rewrite H1.
+      unfold bind at 1. rewrite (H2 f) by lia. unfold bind at 1. rewrite (H3 f) by lia. reflexivity.
+    + constructor; [exists c, I; cbn [fst snd]; rewrite Hvx; split; [reflexivity|exact HI2]|exact HD3].
+Qed.
+
+(* _build_declarations over the whole list: one Decl per declarator, the shared specifier applied to each, every name declared *)
+Lemma adjust_first_tds : forall ns x c I rest (s: pstate),
+  adjust_first P (spec_of ns) (mkDI P (Some (td_of x c)) I VNone :: rest) s = Ok ((spec_of ns, mkDI P (Some (td_of x c)) I VNone :: rest), s).
+Proof.
+  intros ns x c I rest s. destruct WF_S as [n E]. unfold adjust_first. cbn [d_bitsize d_decl].
+  change (is_suE_or_idtype P (td_of x c)) with false. cbv iota. rewrite E.
+  unfold bind at 1. change (find_typedecl P (S (S (S n))) (td_of x c) s) with (@Ok P (node * pstate) (td_of x c, s)).
+  unfold bind at 1. change (getA P a_declname (td_of x c) s) with (@Ok P (node * pstate) (VStr x, s)).
+  reflexivity.
+Qed.
+
+Lemma build_one_td : forall x c I n0 ns v0 vs c0 (s: pstate) l, n0 = mkIdType P [v0] (Some c0) -> IdNodes P ns vs ->
+  NoTD (scopes P s) -> Up s l ->
+  exists s', build_one P (spec_of (n0 :: ns)) false true (mkDI P (Some (td_of x c)) I VNone) s =
+               Ok ((decl1 x c I (map (fun v => VStr v) (v0 :: vs)) c0, spec_of (n0 :: ns)), s') /\
+             Up s' l /\ Same P s s' /\ NoTD (scopes P s').
+Proof.
+  intros x c I n0 ns v0 vs c0 s l En0 Hns HN HU.
+  destruct (add_identifier_notd s (Some x) (Some c) l HN HU) as [s' [Hadd [HU' [HS' HN']]]].
+  exists s'. split; [|split; [exact HU'|split; [exact HS'|exact HN']]].
+  unfold build_one. cbn [d_decl d_init d_bitsize].
+  unfold bind at 1. change (coordA P (td_of x c) s) with (@Ok P (option (coord P) * pstate) (Some c, s)).
+  change (is_suE_or_idtype P (td_of x c)) with false. cbv iota.
+  unfold bind at 1.
+  change (mkN P C_Decl [VNone; quals_value P (spec_of (n0 :: ns)); VList (s_alignment P (spec_of (n0 :: ns))); vstrs P (s_storage P (spec_of (n0 :: ns)));
+                        vstrs P (s_function P (spec_of (n0 :: ns))); td_of x c; I; VNone] (Some c)) with (decl0 x c I).
+  cbn [s_type spec_of].
+  rewrite (fix_decl0 x c I n0 ns v0 vs c0 s En0 Hns).
+  set (D := decl1 x c I (map (fun v : str => VStr v) (v0 :: vs)) c0).
+  unfold bind at 1. unfold bind at 1. change (getA P a_name D s) with (@Ok P (node * pstate) (VStr x, s)).
+  unfold bind at 1. unfold name_of_value at 1. unfold ret at 1.
+  unfold bind at 1. change (coordA P D s) with (@Ok P (option (coord P) * pstate) (Some c, s)).
+  cbv iota beta. rewrite Hadd.
+  unfold bind at 1. unfold D. rewrite fix_atomic_decl1. fold D.
+  unfold bind at 1. change (getA P a_quals D s') with (@Ok P (node * pstate) (VList [], s')).
+  unfold bind at 1. unfold ret at 1. cbn [flat_map]. unfold ret at 1.
+  subst n0. destruct ns as [|n1 ns']; reflexivity.
+Qed.
+
+Definition Decls (Ns: list node) (ty: list (kind * str)) (ds: list (str * list (kind * str) * value unit)) : Prop :=
+  Forall2 (fun N d => exists c I c0, N = decl1 (fst (fst d)) c I (map (fun v => VStr v) (map snd ty)) c0 /\ strip I = snd d) Ns ds.
+
+Lemma build_loop_tds : forall infos ds, DIs infos ds ->
+  forall k0 v0 ty' n0 ns c0 (s: pstate) l, n0 = mkIdType P [v0] (Some c0) -> IdNodes P ns (map snd ty') -> NoTD (scopes P s) -> Up s l ->
+  exists Ns s', build_loop P (spec_of (n0 :: ns)) false true infos s = Ok ((Ns, spec_of (n0 :: ns)), s') /\
+    Up s' l /\ Same P s s' /\ NoTD (scopes P s') /\ Decls Ns ((k0, v0) :: ty') ds.
+Proof.
+  intros infos ds H. induction H as [|di d infos ds [c [I [-> HI]]] _ IH]; intros k0 v0 ty' n0 ns c0 s l En0 Hns HN HU.
+  - exists [], s. split; [reflexivity|split; [exact HU|split; [apply Same_refl|split; [exact HN|constructor]]]].
+  - destruct (build_one_td (fst (fst d)) c I n0 ns v0 (map snd ty') c0 s l En0 Hns HN HU) as [s1 [H1 [HU1 [HS1 HN1]]]].
+    destruct (IH k0 v0 ty' n0 ns c0 s1 l En0 Hns HN1 HU1) as [Ns [s2 [H2 [HU2 [HS2 [HN2 HD2]]]]]].
+    exists (decl1 (fst (fst d)) c I (map (fun v => VStr v) (v0 :: map snd ty')) c0 :: Ns), s2.
+    split; [|split; [exact HU2|split; [exact (Same_trans P _ _ _ HS1 HS2)|split; [exact HN2|]]]].
+    + cbn [build_loop]. unfold bind at 1. rewrite H1. cbn [fst snd]. unfold bind at 1. rewrite H2. reflexivity.
+    + constructor; [exists c, I, c0; split; [reflexivity|exact HI]|exact HD2].
+Qed.
+
+Lemma set_quals_decls : forall Ns ty ds, Decls Ns ty ds ->
+  map (fun d : node => match set_attr P a_quals (vstrs P []) d with Some d' => d' | None => d end) Ns = Ns.
+Proof. intros Ns ty ds H. induction H as [|N d Ns ds [c [I [c0 [-> _]]]] _ IH]; [reflexivity|]. cbn [map]. rewrite IH. reflexivity. Qed.
+
+Definition dltoks (ty: list (kind * str)) (x: str) (ki: list (kind * str)) (ds: list (str * list (kind * str) * value unit)) : list (kind * str) :=
+  ty ++ (K_ID, x) :: ki ++ concat (map (fun d => (K_COMMA, s2l ",") :: (K_ID, fst (fst d)) :: snd (fst d)) ds) ++ [(K_SEMI, s2l ";")].
+
+(* `T x1 [= e1] , x2 [= e2] , ... ;` : one Decl per declarator, in order, each with the type T spells *)
+Theorem decl_list_run : forall ty x ki Xi ds, ty <> [] -> Forall (fun kv => kind_in (fst kv) tbl_TYPE_SPEC_SIMPLE = true) ty -> InitOK ki Xi ->
+  Forall (fun d => InitOK (snd (fst d)) (snd d)) ds ->
+  forall (s: pstate) le (stop: tok) l0, Spell le (dltoks ty x ki ds) -> Up s (le ++ stop :: l0) -> NoTD (scopes P s) ->
+  exists f0 Ns s', (forall f, f0 <= f -> p_declaration P f s = Ok (Ns, s')) /\ Up s' (stop :: l0) /\
+    map (@strip (coord P)) Ns = dembed ty x Xi :: map (fun d => dembed ty (fst (fst d)) (snd d)) ds /\ Ran P s s' (length le).
+Proof.
+  intros ty x ki Xi ds Hne HF HI HDs s le stop l0 HS HU HN. unfold dltoks in HS.
+  destruct (RoundTrip.Spell_app_inv P _ _ _ HS) as [lty [l1 [-> [HSty HS1]]]].
+  destruct (RoundTrip.Spell_cons_inv P _ _ _ _ HS1) as [xt [l2 [-> [Hkx [Hvx HS2]]]]].
+  destruct (RoundTrip.Spell_app_inv P _ _ _ HS2) as [lki [l3 [-> [HSki HS3]]]].
+  destruct (RoundTrip.Spell_app_inv P _ _ _ HS3) as [lds [l4 [-> [HSds HS4]]]].
+  destruct (RoundTrip.Spell_cons_inv P _ _ _ _ HS4) as [semi [l5 [-> [Hksemi [_ HS5]]]]]. apply (RoundTrip.Spell_nil_inv P) in HS5. subst l5.
+  rewrite <- !app_assoc in HU. cbn [app] in HU. rewrite <- !app_assoc in HU. cbn [app] in HU.
+  destruct (spec_loop_run_d ty HF (mkSS P None false false None) s lty xt _ HSty HU Hkx) as [f1 [ns [st' [s1 [H1 [HU1 [HR1 [Hns [Hsp Hsaw]]]]]]]]].
+  destruct ty as [|[k0 v0] ty']; [congruence|]. cbn [map snd] in Hns.
+  inversion Hns as [|n0 v0' ns' vs' [c0 En0] Hns' E1]. subst.
+  cbn [ss_spec fold_left] in Hsp. unfold add_type at 2 in Hsp. cbn [spec_or_new] in Hsp. rewrite (fold_types P) in Hsp. cbn in Hsp.
+  cbn [ss_saw_type orb negb] in Hsaw.
+  destruct (peek_kind_up P s1 xt _ HU1) as [s2 [H2 [HU2 HS2']]].
+  (* the first declarator: followed by `,` or `;` *)
+  assert (Hnext: exists n l', lds ++ semi :: stop :: l0 = n :: l' /\ (tk n = K_SEMI \/ tk n = K_COMMA)).
+  { destruct ds as [|[[x2 ki2] X2] ds'].
+    - apply (RoundTrip.Spell_nil_inv P) in HSds. subst lds. exists semi, (stop :: l0). split; [reflexivity|left; exact Hksemi].
+    - cbn [map concat fst snd] in HSds. destruct (RoundTrip.Spell_cons_inv P _ _ _ _ HSds) as [n [l2' [-> [Hkn _]]]]. exists n, (l2' ++ semi :: stop :: l0). split; [reflexivity|right; exact Hkn]. }
+  destruct Hnext as [n [l' [En Hn]]]. rewrite En in HU2.
+  destruct (idecl_run ki Xi HI s2 xt lki n l' Hkx HSki Hn HU2) as [f3 [c [I [s3 [H3 [HU3 [HIs HR3]]]]]]]. rewrite <- En in HU3.
+  destruct (idm_run ds HDs s3 lds semi (stop :: l0) HSds Hksemi HU3) as [f4 [infos [s4 [H4 [HU4 [HD4 HR4]]]]]].
+  assert (HN4: NoTD (scopes P s4)). { clear - HN HR1 HS2' HR3 HR4. unfold Ran, Same, SC in *. tauto. }
+  assert (HD: DIs (mkDI P (Some (td_of (tv xt) c)) I VNone :: infos) ((tv xt, ki, Xi) :: ds)).
+  { constructor; [exists c, I; split; [reflexivity|exact HIs]|exact HD4]. }
+  destruct (build_loop_tds _ _ HD k0 v0 ty' (mkIdType P [v0] (Some c0)) ns' c0 s4 _ eq_refl Hns' HN4 HU4) as [Ns [s5 [H5 [HU5 [HS5 [HN5 HDc]]]]]].
+  assert (Hsm: kind_eqb (tk semi) K_SEMI = true) by (rewrite Hksemi; reflexivity).
+  destruct (expect_up P s5 semi _ K_SEMI HU5 Hsm) as [s6 [H6 [HU6 HA6]]].
+  exists (S (S (S (Nat.max f1 (Nat.max f3 f4))))), Ns, s6.
+  split; [|split; [exact HU6|split; [|cost_tac]]].
+  - intros f Hf. destruct f as [|[|f]]; try lia. rewrite declaration_eq. unfold bind at 1. rewrite declspec_eq. unfold bind at 1. rewrite (H1 f) by lia.
+    rewrite Hsp, Hsaw. cbn [negb andb]. unfold ret at 1. cbv iota beta.
+    unfold bind at 1. rewrite decl_body_eq. unfold bind at 1. unfold starts_declarator. unfold bind at 1. cbn [negb]. rewrite H2. rewrite Hkx.
+    change (kind_eqb K_ID K_TIMES || kind_eqb K_ID K_LPAREN) with false. cbv iota. unfold ret at 1.
+    change (kind_eqb K_ID K_ID || kind_eqb K_ID K_TYPEID) with true. cbv iota.
+    unfold bind at 1. unfold bind at 1. destruct f as [|f]; [lia|]. rewrite idl_eq. unfold bind at 1. rewrite (H3 f) by lia.
+    unfold bind at 1. rewrite (H4 f) by lia. unfold ret at 1. unfold ret at 1.
+    change (mkSpec P [] [] (mkIdType P [v0] (Some c0) :: ns') [] []) with (spec_of (mkIdType P [v0] (Some c0) :: ns')).
+    unfold build_declarations. change (mem_str (s2l "typedef") (s_storage P (spec_of (mkIdType P [v0] (Some c0) :: ns')))) with false.
+    unfold bind at 1. unfold bind at 1. rewrite adjust_first_tds. cbn [fst snd].
+    unfold bind at 1. rewrite H5. cbn [fst snd]. unfold ret at 1. change (s_qual P (spec_of (mkIdType P [v0] (Some c0) :: ns'))) with (@nil str).
+    rewrite (set_quals_decls Ns _ _ HDc). cbv iota beta. rewrite H6. reflexivity.
+  - clear - HDc. cbn [map snd]. remember ((tv xt, ki, Xi) :: ds) as dd eqn:Edd.
+    assert (G: map (@strip (coord P)) Ns = map (fun d => dembed ((k0, v0) :: ty') (fst (fst d)) (snd d)) dd).
+    { clear Edd. induction HDc as [|N d Ns dd [c' [I' [c0' [-> HI']]]] _ IHd]; [reflexivity|]. cbn [map]. rewrite IHd. f_equal.
+      unfold decl1, dembed. cbn [map strip snd]. rewrite (strip_strs P). rewrite HI'. reflexivity. }
+    rewrite G, Edd. reflexivity.
+Qed.
+
 End DT.
